@@ -10,7 +10,7 @@
 long atol(const char *nptr) {
 	int c;
 	int sign;
-	long total;
+	unsigned long total;
 	const unsigned char *p = (const unsigned char *) nptr;
 
 	while (isspace(*p))
@@ -28,9 +28,9 @@ long atol(const char *nptr) {
 	}
 
 	if (sign == '-') {
-		return -total;
+		return (long) (0 - total);
 	} else {
-		return total;
+		return (long) total;
 	}
 }
 
